@@ -13,7 +13,7 @@ package yubiagent
 //vsym:max-len 4
 //vsym:expect-cover C12.limits C12.read.eof C12.read.too-large C12.read.data C12.read.short C12.serve.clean-eof C12.serve.error C12.serve.answered
 //vsym:bound H12_read: any 4 length bytes (declared length 0..2^32-1), 0..4 body bytes available, optional short reads of 1 byte, EOF anywhere; allocation lengths are restricted to <= 4 after the 16 MiB obligation
-//vsym:bound H12_serve: 0..2 frames (thorough 0..3) of 0..3 (thorough 0..5) symbolic bytes each followed by a clean EOF or a truncated frame; the served YubiAgent returns arbitrary results/errors
+//vsym:bound H12_serve: 0..2 frames of 0..3 (thorough 0..5) symbolic bytes each followed by a clean EOF or a truncated frame; the served YubiAgent returns arbitrary results/errors
 //vsym:bound H12_limits: frames of exactly 16 MiB and 16 MiB + 1 bytes (concrete zero bytes): what read accepts, write must be able to re-frame for the forwarder
 //vsym:assume writes to the connection succeed (the quantifier is the peer's byte stream); x/crypto's request decoding (processRequestBytes, ParsePublicKey, ssh.Unmarshal/Marshal) and pem.EncodeToMemory are modelled as arbitrary results; agent.ServeAgent's own loop is executed from source
 
@@ -231,7 +231,7 @@ func H12_serve() {
 	vMaxLen(4)
 	maxFrames, maxLen := 2, 3
 	if vThorough() {
-		maxFrames, maxLen = 3, 5
+		maxFrames, maxLen = 2, 5
 	}
 	m12Pool = make([]bool, 8)
 	for i := range m12Pool {
